@@ -380,8 +380,8 @@ Section Operate.
     - intros ->. rewrite (Hc eq_refl) in Hu. rewrite unpack_map_nil in Hu. inversion Hu. reflexivity.
   Qed.
 
-  Lemma operate_mul_sound fuel ca ua da cb ub db u w :
-    operand ca ua da -> operand cb ub db ->
+  Lemma operate_mul_sound fuel ua da ub db u w :
+    (forall k, xdim E ua k == da k) -> (forall k, xdim E ub k == db k) ->
     operate_with_units fuel defs OP_mul [ua; ub] = Some (u, w) ->
     w = false /\ wf u /\ nz u /\ forall k, xdim E u k == da k + db k.
   Proof.
@@ -394,11 +394,11 @@ Section Operate.
     inversion H; subst. destruct (post_sound res Hw) as [P1 [P2 [_ P4]]].
     split; [reflexivity|]. split; [exact P1|]. split; [exact P2|]. intros k. fold (post res). rewrite P4.
     rewrite (xdim_linear E res _ _ 1 1 k Hw Hwa Hwb) by (intros m; rewrite Hd; ring).
-    rewrite Hxa, Hxb. destruct Ha as [Ha _], Hb as [Hb _]. rewrite Ha, Hb. ring.
+    rewrite Hxa, Hxb. rewrite Ha, Hb. ring.
   Qed.
 
-  Lemma operate_div_sound fuel ca ua da cb ub db u w :
-    operand ca ua da -> operand cb ub db ->
+  Lemma operate_div_sound fuel ua da ub db u w :
+    (forall k, xdim E ua k == da k) -> (forall k, xdim E ub k == db k) ->
     operate_with_units fuel defs OP_div [ua; ub] = Some (u, w) ->
     w = false /\ wf u /\ nz u /\ forall k, xdim E u k == da k - db k.
   Proof.
@@ -411,11 +411,11 @@ Section Operate.
     inversion H; subst. destruct (post_sound res Hw) as [P1 [P2 [_ P4]]].
     split; [reflexivity|]. split; [exact P1|]. split; [exact P2|]. intros k. fold (post res). rewrite P4.
     rewrite (xdim_linear E res _ _ 1 (-1) k Hw Hwa Hwb) by (intros m; rewrite Hd; ring).
-    rewrite Hxa, Hxb. destruct Ha as [Ha _], Hb as [Hb _]. rewrite Ha, Hb. ring.
+    rewrite Hxa, Hxb. rewrite Ha, Hb. ring.
   Qed.
 
-  Lemma operate_neg_sound fuel ca ua da u w :
-    operand ca ua da ->
+  Lemma operate_neg_sound fuel ua da u w :
+    (forall k, xdim E ua k == da k) ->
     operate_with_units fuel defs OP_neg [ua] = Some (u, w) ->
     w = false /\ wf u /\ nz u /\ forall k, xdim E u k == da k.
   Proof.
@@ -429,8 +429,8 @@ Section Operate.
     fold (post (filter_zero r0a)). rewrite P4, Hxa. apply Ha.
   Qed.
 
-  Lemma operate_sqrt_sound fuel ca ua da u w :
-    operand ca ua da ->
+  Lemma operate_sqrt_sound fuel ua da u w :
+    (forall k, xdim E ua k == da k) ->
     operate_with_units fuel defs OP_sqrt [ua] = Some (u, w) ->
     w = false /\ wf u /\ nz u /\ forall k, xdim E u k == da k / 2.
   Proof.
@@ -445,7 +445,7 @@ Section Operate.
     split; [reflexivity|]. split; [exact P1|]. split; [exact P2|]. intros k.
     fold (post res). rewrite P4.
     rewrite (xdim_scaled E res (filter_zero r0a) (1 / 2) k Hw Hwa).
-    - rewrite Hxa. destruct Ha as [Ha _]. rewrite Ha. field.
+    - rewrite Hxa. rewrite Ha. field.
     - intros m. unfold res. rewrite dim_map_vals by reflexivity. field.
   Qed.
 
@@ -546,11 +546,11 @@ Section Tree.
       destruct o; simpl in Hg; try discriminate.
       + (* neg *) unfold propagate_units in H. rewrite Hguard in H. simpl map in H.
         destruct (operate_with_units fuel defs OP_neg [ua]) as [[u1 w1]|] eqn:Eo; [|discriminate].
-        inversion H; subst. destruct (operate_neg_sound defs E HE Hdefs _ _ _ _ _ _ Hopa Eo) as [-> [Hw [_ Hx]]].
+        inversion H; subst. destruct (operate_neg_sound defs E HE Hdefs _ _ _ _ _ (proj1 Hopa) Eo) as [-> [Hw [_ Hx]]].
         unfold node_ok. simpl. split; [exact Hw|]. split; [intros _; exact Hx|]. split; [discriminate|tauto].
       + (* sqrt *) unfold propagate_units in H. rewrite Hguard in H. simpl map in H.
         destruct (operate_with_units fuel defs OP_sqrt [ua]) as [[u1 w1]|] eqn:Eo; [|discriminate].
-        inversion H; subst. destruct (operate_sqrt_sound defs E HE Hdefs _ _ _ _ _ _ Hopa Eo) as [-> [Hw [_ Hx]]].
+        inversion H; subst. destruct (operate_sqrt_sound defs E HE Hdefs _ _ _ _ _ (proj1 Hopa) Eo) as [-> [Hw [_ Hx]]].
         unfold node_ok. simpl. split; [exact Hw|]. split; [intros _; exact Hx|]. split; [discriminate|tauto].
     - (* binary *)
       simpl in Hdom. destruct Hdom as [Hda [Hdb [Hoka Hcase]]]. simpl in H.
@@ -583,10 +583,10 @@ Section Tree.
           -- unfold node_ok. simpl. split; [constructor|]. split; [discriminate|]. split; [|reflexivity].
              intros _. split; [reflexivity|]. tauto.
         * (* mul *)
-          destruct (operate_mul_sound defs E HE Hdefs _ _ _ _ _ _ _ _ _ Hopa Hopb Eo) as [-> [Hw [_ Hx]]].
+          destruct (operate_mul_sound defs E HE Hdefs _ _ _ _ _ _ _ (proj1 Hopa) (proj1 Hopb) Eo) as [-> [Hw [_ Hx]]].
           unfold node_ok. simpl. split; [exact Hw|]. split; [intros _; exact Hx|]. split; [discriminate|tauto].
         * (* div *)
-          destruct (operate_div_sound defs E HE Hdefs _ _ _ _ _ _ _ _ _ Hopa Hopb Eo) as [-> [Hw [_ Hx]]].
+          destruct (operate_div_sound defs E HE Hdefs _ _ _ _ _ _ _ (proj1 Hopa) (proj1 Hopb) Eo) as [-> [Hw [_ Hx]]].
           unfold node_ok. simpl. split; [exact Hw|]. split; [intros _; exact Hx|]. split; [discriminate|tauto].
       + (* constant power: no unpacking, no filter, no packing *)
         simpl in Eb. inversion Eb; subst. simpl in H. inversion H; subst.
@@ -596,3 +596,322 @@ Section Tree.
           intros _ k. rewrite xdim_map_vals_scale. destruct Hopa as [Hx _]. rewrite Hx. reflexivity.
   Qed.
 End Tree.
+
+Lemma d_lookup_some_In defs s d : d_lookup defs s = Some d -> In s (map fst defs).
+Proof.
+  induction defs as [|[n' d'] r IH]; simpl; [discriminate|].
+  peq s n'; [tauto|]. intros H. right. apply IH. exact H.
+Qed.
+
+(** * Termination: with acyclic definitions enough fuel always exists *)
+Section Termination.
+  Variable defs : defmap.
+  Variable rank : sym -> nat.
+  Hypothesis Hrank : forall n d m, d_lookup defs n = Some d -> In m (keys d) -> d_lookup defs m <> None ->
+                                   (rank m < rank n)%nat.
+
+  Definition lvl (s : sym) : nat := match d_lookup defs s with None => 1 | Some _ => rank s + 2 end.
+
+  Lemma fold_ustep_total rec count u : (forall n c, In n (keys u) -> rec n c <> None) ->
+    forall acc, fold_left (ustep rec count) u (Some acc) <> None.
+  Proof.
+    induction u as [|[n x] r IH]; intros Hrec acc; simpl; [discriminate|].
+    destruct (rec n (x * count)) as [unp|] eqn:Er.
+    - apply IH. intros n0 c Hn0. apply Hrec. right. exact Hn0.
+    - exfalso. apply (Hrec n (x * count)); [left; reflexivity|exact Er].
+  Qed.
+
+  Lemma unpack_str_total : forall f s c, (lvl s <= f)%nat -> unpack_str f defs s c <> None.
+  Proof.
+    induction f as [|f IH]; intros s c Hl.
+    - unfold lvl in Hl. destruct (d_lookup defs s); lia.
+    - simpl. unfold lvl in Hl. destruct (d_lookup defs s) as [d|] eqn:El; [|discriminate].
+      rewrite unpack_items_eq. apply fold_ustep_total. intros n c' Hn. apply IH.
+      unfold lvl. destruct (d_lookup defs n) as [d'|] eqn:En; [|lia].
+      assert (rank n < rank s)%nat by (apply (Hrank s d n El Hn); congruence). lia.
+  Qed.
+
+  Definition enough : nat := S (list_max (map (fun n => S (rank n)) (map fst defs))).
+
+  Lemma rank_le_max s d : d_lookup defs s = Some d ->
+    (S (rank s) <= list_max (map (fun n => S (rank n)) (map fst defs)))%nat.
+  Proof.
+    intros El. apply d_lookup_some_In in El.
+    pose proof (list_max_le (map (fun n => S (rank n)) (map fst defs))
+                            (list_max (map (fun n => S (rank n)) (map fst defs)))) as [Hle _].
+    specialize (Hle (Nat.le_refl _)). rewrite Forall_forall in Hle. apply Hle.
+    apply (in_map (fun n => S (rank n))). exact El.
+  Qed.
+
+  Lemma lvl_enough s : (lvl s <= enough)%nat.
+  Proof.
+    unfold lvl, enough. destruct (d_lookup defs s) as [d|] eqn:El; [|lia].
+    pose proof (rank_le_max s d El). lia.
+  Qed.
+
+  Lemma unpack_map_total fuel u c : (enough <= fuel)%nat -> unpack_map fuel defs u c <> None.
+  Proof.
+    intros Hf. unfold unpack_map. rewrite unpack_items_eq. apply fold_ustep_total.
+    intros n c' _. apply unpack_str_total. pose proof (lvl_enough n). lia.
+  Qed.
+
+  Lemma operate_total1 fuel o ua : (enough <= fuel)%nat -> un_in_grammar o = true ->
+    operate_with_units fuel defs o [ua] <> None.
+  Proof.
+    intros Hf Hg. unfold operate_with_units. simpl.
+    destruct (unpack_map fuel defs ua 1) as [r|] eqn:Eu; [|exfalso; exact (unpack_map_total fuel ua 1 Hf Eu)].
+    destruct o; simpl in Hg; try discriminate.
+    all: cbn [unit_operations apply_ufn]; try (destruct (f_sqrt _)); discriminate.
+  Qed.
+
+  Lemma operate_total2 fuel o ua ub : (enough <= fuel)%nat -> bin_in_grammar o = true ->
+    operate_with_units fuel defs o [ua; ub] <> None.
+  Proof.
+    intros Hf Hg. unfold operate_with_units. simpl.
+    destruct (unpack_map fuel defs ua 1) as [ra|] eqn:Ea; [|exfalso; exact (unpack_map_total fuel ua 1 Hf Ea)].
+    destruct (unpack_map fuel defs ub 1) as [rb|] eqn:Eb; [|exfalso; exact (unpack_map_total fuel ub 1 Hf Eb)].
+    destruct o; simpl in Hg; try discriminate.
+    all: cbn [unit_operations apply_ufn]; try (destruct (f_add_and_sub _ _)); try (destruct (f_mul _ _));
+      try (destruct (f_div _ _)); discriminate.
+  Qed.
+
+  Theorem unit_of_total E fuel : (enough <= fuel)%nat ->
+    forall e, in_domain fuel defs E e -> exists u w, unit_of fuel defs e = Some (u, w).
+  Proof.
+    intros Hf. induction e as [u0|c|o a IHa|o a IHa b IHb]; intros Hdom; simpl.
+    - eauto.
+    - eauto.
+    - simpl in Hdom. destruct Hdom as [Hg [Hda _]]. destruct (IHa Hda) as [ua [wa ->]].
+      assert (Hp : propagate_units fuel defs o [(a, ua)] <> None).
+      { destruct o; simpl in Hg; try discriminate; unfold propagate_units;
+          (destruct (forallb _ _); [apply operate_total1; [exact Hf|reflexivity]|discriminate]). }
+      destruct (propagate_units fuel defs o [(a, ua)]) as [[u w]|]; [eauto|tauto].
+    - simpl in Hdom. destruct Hdom as [Hda [Hdb [_ Hcase]]].
+      destruct (IHa Hda) as [ua [wa ->]]. destruct (IHb Hdb) as [ub [wb ->]].
+      assert (Hp : propagate_units fuel defs o [(a, ua); (b, ub)] <> None).
+      { destruct Hcase as [[Hg _]|[-> [p ->]]].
+        - destruct o; simpl in Hg; try discriminate; unfold propagate_units;
+            (destruct (forallb _ _); [apply operate_total2; [exact Hf|reflexivity]|discriminate]).
+        - simpl. discriminate. }
+      destruct (propagate_units fuel defs o [(a, ua); (b, ub)]) as [[u w]|]; [eauto|tauto].
+  Qed.
+End Termination.
+
+(** * Existence of the semantic expansion for acyclic definitions *)
+Fixpoint Efuel (defs : defmap) (f : nat) (s k : sym) : Q :=
+  match f with
+  | O => 0
+  | S f' => match d_lookup defs s with
+            | None => delta s k
+            | Some d => xdim (Efuel defs f') d k
+            end
+  end.
+
+Section ExpansionExists.
+  Variable defs : defmap.
+  Variable rank : sym -> nat.
+  Hypothesis Hrank : forall n d m, d_lookup defs n = Some d -> In m (keys d) -> d_lookup defs m <> None ->
+                                   (rank m < rank n)%nat.
+
+  Lemma Efuel_stable : forall f s k, (lvl defs rank s <= f)%nat -> Efuel defs f s k == Efuel defs (S f) s k.
+  Proof.
+    induction f as [|f IH]; intros s k Hl.
+    - unfold lvl in Hl. destruct (d_lookup defs s); lia.
+    - unfold lvl in Hl. simpl. destruct (d_lookup defs s) as [d|] eqn:El; [|reflexivity].
+      apply xdim_ext_E. intros n Hn. apply IH. unfold lvl.
+      destruct (d_lookup defs n) as [d'|] eqn:En; [|lia].
+      assert (rank n < rank s)%nat by (apply (Hrank s d n El Hn); congruence). lia.
+  Qed.
+
+  Lemma expansion_exists_rank : is_expansion defs (Efuel defs (enough defs rank)).
+  Proof.
+    intros s. destruct (d_lookup defs s) as [d|] eqn:El.
+    - intros k. unfold enough. simpl. rewrite El. apply xdim_ext_E. intros n Hn.
+      apply (Efuel_stable _ n k). unfold lvl. pose proof (rank_le_max defs rank s d El) as Hm.
+      destruct (d_lookup defs n) as [d'|] eqn:En; [|lia].
+      assert (rank n < rank s)%nat by (apply (Hrank s d n El Hn); congruence). lia.
+    - intros k. unfold enough. simpl. rewrite El. reflexivity.
+  Qed.
+End ExpansionExists.
+
+Theorem expansion_exists defs : acyclic defs -> exists E, is_expansion defs E.
+Proof. intros [rank Hrank]. exists (Efuel defs (enough defs rank)). apply expansion_exists_rank. exact Hrank. Qed.
+
+(** * Histories of define / clear *)
+Fixpoint last_def (h : list event) (n : sym) (cur : option umap) : option umap :=
+  match h with
+  | [] => cur
+  | Clear :: r => last_def r n None
+  | Define m u :: r => last_def r n (if Pos.eqb n m then Some u else cur)
+  end.
+
+Lemma d_lookup_set defs m u n : d_lookup (d_set defs m u) n = if Pos.eqb n m then Some u else d_lookup defs n.
+Proof.
+  induction defs as [|[k d] r IH]; simpl.
+  - destruct (Pos.eqb n m); reflexivity.
+  - peq m k; simpl.
+    + peq n k; reflexivity.
+    + rewrite IH. peq n k; [rewrite peqb_neq by congruence; reflexivity|reflexivity].
+Qed.
+
+Lemma d_run_lookup_gen h : forall defs n, d_lookup (fold_left d_step h defs) n = last_def h n (d_lookup defs n).
+Proof.
+  induction h as [|e r IH]; intros defs n; simpl; [reflexivity|].
+  destruct e as [m u|]; simpl; rewrite IH; [rewrite d_lookup_set|]; reflexivity.
+Qed.
+
+Lemma d_run_lookup h n : d_lookup (d_run h) n = last_def h n None.
+Proof. unfold d_run. rewrite d_run_lookup_gen. reflexivity. Qed.
+
+Lemma d_run_clear h : d_run (h ++ [Clear]) = [].
+Proof. unfold d_run. rewrite fold_left_app. reflexivity. Qed.
+
+Lemma d_run_app h1 h2 : d_run (h1 ++ h2) = fold_left d_step h2 (d_run h1).
+Proof. unfold d_run. apply fold_left_app. Qed.
+
+Definition wf_history (h : list event) : Prop :=
+  forall n u, In (Define n u) h -> wf u.
+
+Lemma names_d_set defs m u : map fst (d_set defs m u) = if existsb (Pos.eqb m) (map fst defs) then map fst defs else map fst defs ++ [m].
+Proof.
+  induction defs as [|[k d] r IH]; simpl; [reflexivity|].
+  peq m k; simpl; [reflexivity|]. rewrite IH. destruct (existsb (Pos.eqb m) (map fst r)); reflexivity.
+Qed.
+
+Lemma wf_defs_set defs m u : wf_defs defs -> wf u -> wf_defs (d_set defs m u).
+Proof.
+  intros [Hn Hd] Hu. split.
+  - rewrite names_d_set. destruct (existsb (Pos.eqb m) (map fst defs)) eqn:Ex; [exact Hn|].
+    apply NoDup_snoc; [exact Hn|]. intros Hi.
+    assert (existsb (Pos.eqb m) (map fst defs) = true); [|congruence].
+    apply existsb_exists. exists m. split; [exact Hi|apply Pos.eqb_refl].
+  - clear Hn. induction defs as [|[k d] r IH]; simpl.
+    + intros n d [Hi|[]]. inversion Hi; subst. exact Hu.
+    + peq m k.
+      * intros n d' [Hi|Hi]; [inversion Hi; subst; exact Hu|]. apply (Hd n d'). right. exact Hi.
+      * intros n' d' [Hi|Hi]; [apply (Hd n' d'); left; exact Hi|].
+        apply (IH (fun a b Hab => Hd a b (or_intror Hab)) n' d' Hi).
+Qed.
+
+Lemma wf_defs_run_gen h : forall defs, wf_history h -> wf_defs defs -> wf_defs (fold_left d_step h defs).
+Proof.
+  induction h as [|e r IH]; intros defs Hh Hd; simpl; [exact Hd|].
+  apply IH; [intros n u Hi; apply (Hh n u); right; exact Hi|].
+  destruct e as [m u|]; simpl.
+  - apply wf_defs_set; [exact Hd|]. apply (Hh m u). left. reflexivity.
+  - split; [constructor|intros ? ? []].
+Qed.
+
+Lemma wf_defs_run h : wf_history h -> wf_defs (d_run h).
+Proof. intros H. apply wf_defs_run_gen; [exact H|]. split; [constructor|intros ? ? []]. Qed.
+
+(** * No definitions active (C08) *)
+Lemma wf_defs_nil : wf_defs [].
+Proof. split; [constructor|intros ? ? []]. Qed.
+
+Lemma rank0_ok : forall n d m, d_lookup [] n = Some d -> In m (keys d) -> d_lookup [] m <> None -> (0 < 0)%nat.
+Proof. intros n d m H. discriminate. Qed.
+
+Lemma C08_dim_lemma e : in_domain 1 [] delta e ->
+  exists u w, unit_of 1 [] e = Some (u, w) /\ NoDup (keys u) /\
+    (w = false -> forall k, dim u k == dspec delta e k) /\
+    (w = true -> u = [] /\ genuine_mismatch delta e) /\
+    (genuine_mismatch delta e -> w = true).
+Proof.
+  intros Hdom.
+  destruct (unit_of_total [] (fun _ => 0%nat) rank0_ok delta 1 (Nat.le_refl _) e Hdom) as [u [w Hu]].
+  exists u, w. split; [exact Hu|].
+  destruct (unit_of_sound [] delta is_expansion_nil wf_defs_nil 1 e u w Hdom Hu) as [Hw [Hf [Ht Hg]]].
+  split; [exact Hw|]. split; [|split; assumption].
+  intros Hwf k. rewrite <- (Hf Hwf k). symmetry. apply xdim_delta. exact Hw.
+Qed.
+
+Lemma order_insensitive_lemma o u1 u2 :
+  is_addsub o = true -> NoDup (keys u1) -> NoDup (keys u2) -> has_unit delta u1 ->
+  (forall k, dim u1 k == dim u2 k) ->
+  exists u, unit_of 1 [] (Bin o (Leaf u1) (Leaf u2)) = Some (u, false) /\ forall k, dim u k == dim u1 k.
+Proof.
+  intros Ho H1 H2 Hd Heq.
+  assert (Hd2 : has_unit delta u2).
+  { destruct Hd as [k Hk]. exists k. rewrite xdim_delta by exact H2. rewrite <- Heq. rewrite <- xdim_delta by exact H1. exact Hk. }
+  assert (Hdom : in_domain 1 [] delta (Bin o (Leaf u1) (Leaf u2))).
+  { simpl. split; [exact H1|]. split; [exact H2|]. split.
+    - right. exists u1, false. split; [reflexivity|exact Hd].
+    - left. split; [destruct o; simpl in Ho; try discriminate; reflexivity|].
+      right. exists u2, false. split; [reflexivity|exact Hd2]. }
+  destruct (C08_dim_lemma _ Hdom) as [u [w [Hu [Hw [Hf [Ht Hg]]]]]].
+  destruct w.
+  - exfalso. destruct (Ht eq_refl) as [_ [_ [_ [_ [k Hk]]]]]. apply Hk. simpl.
+    rewrite (xdim_delta u1 k H1), (xdim_delta u2 k H2). apply Heq.
+  - exists u. split; [exact Hu|]. intros k. rewrite (Hf eq_refl k).
+    destruct o; simpl in Ho; try discriminate; simpl; apply xdim_delta; exact H1.
+Qed.
+
+Lemma order_insensitive_perm o u1 u2 :
+  is_addsub o = true -> NoDup (keys u1) -> has_unit delta u1 -> Permutation u1 u2 ->
+  exists u, unit_of 1 [] (Bin o (Leaf u1) (Leaf u2)) = Some (u, false) /\ forall k, dim u k == dim u1 k.
+Proof.
+  intros Ho H1 Hd Hp. apply order_insensitive_lemma; try assumption.
+  - unfold keys. eapply Permutation_NoDup; [apply Permutation_map; exact Hp|exact H1].
+  - intros k. apply dim_perm; assumption.
+Qed.
+
+Lemma no_zero_lemma o a b u w : (o = OP_mul \/ o = OP_div) ->
+  operate_with_units 1 [] o [a; b] = Some (u, w) -> forall k v, In (k, v) u -> ~ v == 0.
+Proof.
+  intros [->| ->] H.
+  - destruct (operate_mul_sound [] delta is_expansion_nil wf_defs_nil 1 a (xdim delta a) b (xdim delta b) u w
+                (fun k => Qeq_refl _) (fun k => Qeq_refl _) H) as [_ [_ [Hz _]]]. exact Hz.
+  - destruct (operate_div_sound [] delta is_expansion_nil wf_defs_nil 1 a (xdim delta a) b (xdim delta b) u w
+                (fun k => Qeq_refl _) (fun k => Qeq_refl _) H) as [_ [_ [Hz _]]]. exact Hz.
+Qed.
+
+Lemma cancel_lemma a b : NoDup (keys a) -> NoDup (keys b) ->
+  exists ab r, operate_with_units 1 [] OP_mul [a; b] = Some (ab, false) /\
+               operate_with_units 1 [] OP_div [ab; b] = Some (r, false) /\
+               (forall k, dim r k == dim a k) /\ (forall k v, In (k, v) r -> ~ v == 0).
+Proof.
+  intros Ha Hb.
+  pose proof (operate_total2 [] (fun _ => 0%nat) rank0_ok 1 OP_mul a b (Nat.le_refl _) eq_refl) as Hm.
+  destruct (operate_with_units 1 [] OP_mul [a; b]) as [[ab w1]|] eqn:Em; [|tauto].
+  destruct (operate_mul_sound [] delta is_expansion_nil wf_defs_nil 1 a (xdim delta a) b (xdim delta b) ab w1
+              (fun k => Qeq_refl _) (fun k => Qeq_refl _) Em) as [-> [Hwab [_ Hxab]]].
+  pose proof (operate_total2 [] (fun _ => 0%nat) rank0_ok 1 OP_div ab b (Nat.le_refl _) eq_refl) as Hd.
+  destruct (operate_with_units 1 [] OP_div [ab; b]) as [[r w2]|] eqn:Ed; [|tauto].
+  destruct (operate_div_sound [] delta is_expansion_nil wf_defs_nil 1 ab (xdim delta ab) b (xdim delta b) r w2
+              (fun k => Qeq_refl _) (fun k => Qeq_refl _) Ed) as [-> [Hwr [Hzr Hxr]]].
+  exists ab, r. split; [reflexivity|]. split; [exact Ed|]. split; [|exact Hzr].
+  intros k. rewrite <- (xdim_delta r k Hwr), Hxr, Hxab, (xdim_delta a k Ha). ring.
+Qed.
+
+(** with no definitions the fuel is irrelevant (one frame is enough) *)
+Lemma fold_ustep_ext rec1 rec2 c u : (forall n x, rec1 n x = rec2 n x) ->
+  forall acc, fold_left (ustep rec1 c) u acc = fold_left (ustep rec2 c) u acc.
+Proof.
+  intros H. induction u as [|[n x] r IH]; intros acc; simpl; [reflexivity|].
+  rewrite H. apply IH.
+Qed.
+
+Lemma unpack_map_fuel_nil f u c : unpack_map (S f) [] u c = unpack_map 1 [] u c.
+Proof. unfold unpack_map. rewrite !unpack_items_eq. apply fold_ustep_ext. intros; reflexivity. Qed.
+
+Lemma unpack_all_fuel_nil f l : unpack_all (S f) [] l = unpack_all 1 [] l.
+Proof. induction l as [|u r IH]; [reflexivity|]. cbn [unpack_all]. rewrite IH, unpack_map_fuel_nil. reflexivity. Qed.
+
+Lemma operate_fuel_nil f o l : operate_with_units (S f) [] o l = operate_with_units 1 [] o l.
+Proof. unfold operate_with_units. rewrite unpack_all_fuel_nil. reflexivity. Qed.
+
+Lemma propagate_fuel_nil f o l : propagate_units (S f) [] o l = propagate_units 1 [] o l.
+Proof. unfold propagate_units. rewrite operate_fuel_nil. reflexivity. Qed.
+
+Lemma unit_of_fuel_nil f e : unit_of (S f) [] e = unit_of 1 [] e.
+Proof.
+  induction e as [u0|c|o a IHa|o a IHa b IHb]; try reflexivity.
+  - cbn [unit_of]. rewrite IHa. destruct (unit_of 1 [] a) as [[ua wa]|]; [|reflexivity].
+    rewrite propagate_fuel_nil. reflexivity.
+  - cbn [unit_of]. rewrite IHa, IHb. destruct (unit_of 1 [] a) as [[ua wa]|]; [|reflexivity].
+    destruct (unit_of 1 [] b) as [[ub wb]|]; [|reflexivity]. rewrite propagate_fuel_nil. reflexivity.
+Qed.
+
+Lemma clear_lemma h f e : unit_of (S f) (d_run (h ++ [Clear])) e = unit_of 1 [] e.
+Proof. rewrite d_run_clear. apply unit_of_fuel_nil. Qed.
